@@ -23,7 +23,7 @@ from vf.core import MachineryError, exc_record
 from vf.par import pmap
 
 META = {
-    "ready": False,
+    "ready": True,
     "category": "model_checking",
     "technique": "TLA+ reference semantics of connection sets (Connect.tla) model-checked by TLC against the implementation-shaped incremental dictionary-merging algorithm; every enumerated connect program replayed through tree.flatten and compared by exact row-space equality",
     "text": "TLC enumerates all sequences of <= 4 connect clauses over inside connectors of 2-3 components and 2 outside connectors of the top model (plus clauses written inside component classes, and connector classes with several potential / flow / input / output / parameter variables), proves for each that the operational model of expand_connectors (keyed dictionary merge, flow sums with inside/outside sign, zeros for never-connected flows) has the same solution space as the declarative connection sets (rank E = rank D = rank E u D by exact elimination, and the structural zero-sum / sign-multiple argument), and emits the expected coefficient rows; each program is flattened by the real code and the row space of its flat equations must equal the expected one (exact fractions).",
@@ -413,12 +413,13 @@ def run(ctx):
         progs = res.tr("PROG")
         if not progs:
             raise MachineryError("no PROG lines from %s" % c["cfg"])
+        res.out, res.tagged = "", {}           # hundreds of MB in the thorough tier
         if (part, nparts) != c["parts"][0]:    # the short programs are the same in every share
             progs = [pl for pl in progs if len(pl["prog"]["clauses"]) >= c["fulllen"]]
         rng = random.Random(ctx.seed * 7919 + part)
         scen = [scenario_of(pl, c["hier"], c["leaf"], rng, identity=(n % 3 == 0)) for n, pl in enumerate(progs)]
         for n, s_ in enumerate(scen):      # CasADi cross-check on a share of the programs
-            s_["jacobian"] = (n % (5 if ctx.tier == "thorough" else 10) == 1)
+            s_["jacobian"] = (n % 10 == 1)
         outs = pmap(_one, scen, procs)
         seen = set()
         for s, o in zip(scen, outs):
